@@ -57,6 +57,7 @@ type FuncSpec struct {
 	WFHeap     bool     // assume that every reference stored in a freshly introduced heap component is allocated
 	NamedInv   bool     // closed quantified macro bodies are named by boolean constants (one per invariant and state)
 	MapCard    bool     // assume length = cardinality instances (0, 1, 2 keys) for every freshly introduced map key set
+	ArrWin     bool     // scalar arrays (ids, hashes) are read as one window value instead of element by element
 	Pathwise   bool     // postconditions are checked at every return separately instead of once on the merged exit state
 	Reveal     []string // opaque spec functions whose definition this function's proof may use
 	AllocFresh bool // results are freshly allocated
@@ -318,6 +319,8 @@ func ParseFile(path, defaultPkg string) (*File, error) {
 				cur.WFHeap = true
 			case "pathwise":
 				cur.Pathwise = true
+			case "arraywindows":
+				cur.ArrWin = true
 			case "mapcard":
 				cur.MapCard = true
 			case "namedinv":
